@@ -806,6 +806,101 @@ static void sc_qblock(void) {
   world_down();
 }
 
+static void sc_persist(void) {
+  /* observe persistence (coap_persist_*): phase 1, without faults, leaves the three files of a
+   * server with one dynamically created resource and one observer; phase 2, armed, is the
+   * restart: coap_persist_startup() on the files, a notification to the restored observer, a
+   * GET on the restored resource, coap_persist_stop(), tear-down */
+  char f_dyn[96], f_obs[96], f_val[96];
+  snprintf(f_dyn, sizeof(f_dyn), "/var/tmp/verif.c18.%d.dyn", (int)getpid());
+  snprintf(f_obs, sizeof(f_obs), "/var/tmp/verif.c18.%d.obs", (int)getpid());
+  snprintf(f_val, sizeof(f_val), "/var/tmp/verif.c18.%d.val", (int)getpid());
+  prologue(COAP_BLOCK_USE_LIBCOAP | COAP_BLOCK_SINGLE_BODY);
+  fa_armed = 0;
+  int ok = coap_persist_startup(W.srv, f_dyn, f_obs, f_val, 1);
+  coap_resource_t *u = coap_resource_unknown_init(h_unknown_put);
+  if (u) coap_add_resource(W.srv, u);
+  one_request("p", COAP_MESSAGE_CON, COAP_REQUEST_CODE_PUT, "made");
+  uint8_t tok[8];
+  size_t tl = 0;
+  coap_pdu_t *p = mk_req(W.cs, COAP_MESSAGE_CON, COAP_REQUEST_CODE_GET, "obs", tok, &tl);
+  if (p && coap_insert_option(p, COAP_OPTION_OBSERVE, 0, NULL)) coap_send(W.cs, p);
+  pump(120000);
+  W.obs_value = 1;
+  coap_resource_notify_observers(W.r_obs, NULL);
+  pump(120000);
+  uint16_t port = ntohs(W.ep->bind_addr.addr.sin.sin_port);
+  int phase1 = ok && u && W.n_resp >= 3;
+  coap_persist_stop(W.srv);
+  coap_free_context(W.srv);
+  W.srv = NULL;
+  W.ep = NULL;
+  W.r_small = W.r_big = W.r_up = W.r_obs = W.r_loop = NULL;
+  vn_nnodes = 0;
+  vn_register_client(W.cli, W.cs);
+  n_dyn = 0;
+  reslen = 0;
+  R("phase1=%d", phase1);
+  /* ---- the restart */
+  fa_armed = 1;
+  W.srv = coap_new_context(NULL);
+  R("srv=%d", W.srv != NULL);
+  if (W.srv) {
+    coap_context_set_block_mode(W.srv, COAP_BLOCK_USE_LIBCOAP | COAP_BLOCK_SINGLE_BODY);
+    coap_address_t a;
+    vn_addr4(&a, VN_LOOPBACK, port);
+    W.ep = coap_new_endpoint(W.srv, &a, COAP_PROTO_UDP);
+    if (W.ep) vn_register_ep(W.srv, W.ep);
+    W.r_small = mkres("r", h_small, NULL);
+    W.r_obs = mkres("obs", h_obs, NULL);
+    u = coap_resource_unknown_init(h_unknown_put);
+    R("ep=%d res=%d%d%d", W.ep != NULL, W.r_small != NULL, W.r_obs != NULL, u != NULL);
+    if (W.r_small) coap_add_resource(W.srv, W.r_small);
+    if (W.r_obs) {
+      coap_resource_set_get_observable(W.r_obs, 1);
+      coap_add_resource(W.srv, W.r_obs);
+    }
+    if (u) coap_add_resource(W.srv, u);
+    int st = coap_persist_startup(W.srv, f_dyn, f_obs, f_val, 1);
+    R("startup=%d dyn=%d", st, n_dyn);
+    int before = W.n_resp;
+    W.obs_value = 2;
+    W.last_len = 0;
+    int n = W.r_obs ? coap_resource_notify_observers(W.r_obs, NULL) : 0;
+    pump(120000);
+    R("notify=%d got=%d len=%zu", n, W.n_resp - before, W.last_len);
+    if (W.n_resp > before && W.last_code == COAP_RESPONSE_CODE_CONTENT &&
+        W.last_hash != fnv((const uint8_t *)"v2", 2))
+      R("bad=stale-or-wrong-notification");
+    if (W.ep) one_request("g", COAP_MESSAGE_CON, COAP_REQUEST_CODE_GET, "made");
+    if (!W.r_small || !W.ep) {
+      /* what could not be created under the fault is created now, with memory available */
+      int a = fa_armed;
+      fa_armed = 0;
+      if (!W.ep) {
+        coap_address_t a2;
+        vn_addr4(&a2, VN_LOOPBACK, port);
+        W.ep = coap_new_endpoint(W.srv, &a2, COAP_PROTO_UDP);
+        if (W.ep) vn_register_ep(W.srv, W.ep);
+      }
+      if (!W.r_small) {
+        W.r_small = mkres("r", h_small, NULL);
+        if (W.r_small) coap_add_resource(W.srv, W.r_small);
+      }
+      R("retry=%d%d", W.ep != NULL, W.r_small != NULL);
+      fa_armed = a;
+    }
+    finish_with_canary();
+    coap_persist_stop(W.srv);
+  }
+  world_down();
+  if (!getenv("FA_KEEP")) {
+    remove(f_dyn);
+    remove(f_obs);
+    remove(f_val);
+  }
+}
+
 static void sc_async(void) {
   /* separate response through coap_register_async (empty ACK first, CON response later) */
   prologue(COAP_BLOCK_USE_LIBCOAP | COAP_BLOCK_SINGLE_BODY);
@@ -1187,6 +1282,7 @@ static const scen_t scens[] = {
   {"async", sc_async},       {"unknown", sc_unknown},   {"ping", sc_ping},
   {"oscore", sc_oscore},     {"obs_big", sc_obs_big},   {"echo", sc_echo},
   {"cache", sc_cache},       {"multi", sc_multi},       {"qblock", sc_qblock},
+  {"persist", sc_persist},
   {NULL, NULL}};
 
 /* ------------------------------------------------------------------ child / parent */
@@ -1215,6 +1311,21 @@ static void child_main(const scen_t *sc, long k1, long k2, int want_sites, int f
                    fa_attempts, fa_injected, canary_result, fa_guard_bad, fa_poison_bad, fa_live,
                    fa_type_mismatch);
   wr(fd, tmp, (size_t)n);
+  /* what is still allocated: id:type:size (naming a leak in the report) */
+  wr(fd, "K ", 2);
+  {
+    int any = 0;
+    for (unsigned i = 0; i < FA_TAB && any < 12; i++)
+      if (fa_tab[i].p && fa_tab[i].live) {
+        n = snprintf(tmp, sizeof(tmp), "%s%ld:%d:%zu:%p/%p/%p/%p", any ? "," : "", fa_tab[i].id,
+                     fa_tab[i].type, fa_tab[i].size, fa_tab[i].caller[0], fa_tab[i].caller[1],
+                     fa_tab[i].caller[2], fa_tab[i].caller[3]);
+        wr(fd, tmp, (size_t)n);
+        any++;
+      }
+    if (!any) wr(fd, "-", 1);
+  }
+  wr(fd, "\n", 1);
   wr(fd, "R ", 2);
   wr(fd, resbuf, reslen);
   wr(fd, "\n", 1);
@@ -1307,13 +1418,23 @@ static void run_fa(void) {
   close(pfd[0]);
   int st = 0;
   waitpid(pid, &st, 0);
-  char *d, *r, *s, *t, *l, *inj, *e;
+  {
+    /* files of the persist scenario, should the child have died before removing them */
+    static const char *ext[] = {"dyn", "obs", "val", "obs.tmp", "dyn.tmp", "val.tmp"};
+    char fn[96];
+    for (unsigned i = 0; i < sizeof(ext) / sizeof(ext[0]); i++) {
+      snprintf(fn, sizeof(fn), "/var/tmp/verif.c18.%d.%s", (int)pid, ext[i]);
+      if (!getenv("FA_KEEP")) remove(fn);
+    }
+  }
+  char *d, *r, *s, *t, *l, *inj, *e, *kk;
   field(buf, 'D', &d);
   field(buf, 'R', &r);
   field(buf, 'S', &s);
   field(buf, 'T', &t);
   field(buf, 'L', &l);
   field(buf, 'I', &inj);
+  field(buf, 'K', &kk);
   int complete = strstr(buf, "\nE\n") != NULL || strncmp(buf, "E\n", 2) == 0;
   (void)e;
   if (WIFSIGNALED(st)) {
@@ -1347,6 +1468,7 @@ static void run_fa(void) {
     if (first) printf("-");
   }
   printf(" %s", d ? d : "n=? inj=? canary=? guard=? poison=? live=? tm=?");
+  printf(" leaked=%s", kk ? kk : "?");
   printf(" sends=%s", s ? s : "?");
   printf(" res=");
   if (r) {
@@ -1358,7 +1480,7 @@ static void run_fa(void) {
   if (want_sites) printf(" sites=%s", l ? l : "?");
   printf("\n");
   free(buf);
-  free(d); free(r); free(s); free(t); free(l); free(inj);
+  free(d); free(r); free(s); free(t); free(l); free(inj); free(kk);
 }
 
 /* ------------------------------------------------------------------ PDU-layer tie
